@@ -380,6 +380,13 @@ func (e *enc) callWrites(fr *frame, c *ssa.CallCommon, keys map[string]bool, all
 		if _, ok := a.Type().Underlying().(*types.Pointer); ok && !isNodeType(a.Type()) {
 			e.addWriteBase(fr, a, keys, allHeap)
 		}
+		// maps are references: a callee may update the caller's map
+		if _, ok := a.Type().Underlying().(*types.Map); ok {
+			e.addWriteBase(fr, a, keys, allHeap)
+			if u, ok := a.(*ssa.UnOp); ok {
+				e.addWriteBase(fr, u.X, keys, allHeap)
+			}
+		}
 	}
 	if c.IsInvoke() {
 		return
@@ -511,6 +518,9 @@ func (e *enc) loopHeader(fr *frame, h *ssa.BasicBlock) {
 		e.assumeAt(fmt.Sprintf("(>= %s (- 1))", idx))
 		if bound := rangeBound(h, ls.rangeIdx); bound != nil {
 			e.assumeAt(fmt.Sprintf("(< %s %s)", idx, e.value(bound)))
+			// at exit the number of completed iterations equals the length: stated as an equality atom so that
+			// congruence closure can use it under spec functions (e.g. Cnt(s, #i) becomes Cnt(s, len(s)))
+			e.assume(fmt.Sprintf("(=> (>= (+ %s 1) %s) (= (+ %s 1) %s))", idx, e.value(bound), idx, e.value(bound)))
 		}
 	}
 	// 3. assume invariants on the havoced state
